@@ -37,6 +37,38 @@ def items_for(sdoc):
     ]
 
 
+def extra_items_for(target):
+    """[(label, item, positions)]: (a) an unknown aggregate - plain and vendor-prefixed - wrapping a copy of each child of
+    the target, inserted right in front of that child and at the very beginning (a hook that looks for a tag by name must
+    not find the copy); (b) an unknown element named like each attribute of the target's class that is not one of its
+    declared children (properties, methods, list API), in the middle"""
+    import re
+
+    out = []
+    n = len(target[1])
+    for j, child in enumerate(target[1]):
+        out.append((f"aggregate-wrapping-copy-of-child:{j}", ("FOO", [child]), sorted({0, j})))
+        out.append((f"vendor-aggregate-wrapping-copy-of-child:{j}", ("INTU.X", [child]), sorted({0, j})))
+    try:
+        cls = U.cls_by_name(target[0])
+    except Exception:
+        return out
+    declared = declared_tags(target[0])
+    for name in sorted(dir(cls)):
+        tag = name.upper()
+        if name.startswith("_") or tag in declared or not re.fullmatch(r"[A-Z][A-Z0-9]*", tag):
+            continue
+        out.append((f"element-named-like-attribute:{tag}", (tag, "1"), [n // 2]))
+    return out
+
+
+def item_by_label(target, label):
+    d = dict(items_for(target))
+    if label in d:
+        return d[label]
+    return next(item for (lab, item, positions) in extra_items_for(target) if lab == label)
+
+
 def names_in(sterm, out=None):
     out = set() if out is None else out
     out.add(sterm[0])
@@ -180,6 +212,15 @@ def work(chunk):
                         for r in ROUTES:
                             do_case(t, clsname, base_terms, r, sdoc, mutated, lab, dict(case, route=r))
                         t.count("insertions")
+                if bk != "MAXL":
+                    for (label, item, positions) in extra_items_for(target):
+                        for pos in positions:
+                            mutated = insert_at(sdoc, path, pos, item)
+                            case = {"cls": clsname, "base": bk, "path": path, "inserts": [[pos, label]]}
+                            lab = [label.split(":")[0]] + (["nested"] if path else [])
+                            for r in ROUTES:
+                                do_case(t, clsname, base_terms, r, sdoc, mutated, lab, dict(case, route=r))
+                            t.count("insertions")
             if pairs and bk == "MIN":
                 items = items_for(sdoc)
                 npos = len(sdoc[1]) + 1
@@ -225,7 +266,7 @@ def run(ctx):
         "rule": "every class x {MIN, MAXS} document x every child position of the root aggregate"
         + (" and of every aggregate one level below it" if ctx.thorough else " (one level deeper for the classes around MAIL/MFINFO/STOCKINFO)") +
         " x 10 unknown items (element / aggregate whose name is a tag of OTHER classes, digit-initial aggregate wrapping a known child, digit-initial element, data element, empty "
-        "element, aggregate with nested content, aggregate wrapping a known child, vendor-prefixed element, vendor-prefixed aggregate) x 3 routes; + on MIN every pair of positions x 6 item pairs (incl. two vendor tags, same and different positions); distinct_nontrivial = distinct "
+        "element, aggregate with nested content, aggregate wrapping a known child, vendor-prefixed element, vendor-prefixed aggregate) x 3 routes; + an unknown and a vendor aggregate wrapping a copy of each child, in front of that child and at the beginning; + an unknown element named like every non-child attribute of the class (properties, methods, list API); + on MIN every pair of positions x 6 item pairs (incl. two vendor tags, same and different positions); distinct_nontrivial = distinct "
         "(document, insertion) pairs, evaluations = those x routes",
         "classes": tally.counts.get("classes", 0),
         "exhaustive": True,
@@ -239,10 +280,9 @@ def replay(ctx, case):
     cls = U.cls_by_name(case["cls"])
     term = {"MIN": U.MIN, "MAXS": U.MAXS, "MAXL": U.MAXL}[case["base"]](cls)
     sdoc = wire.doc(term) if case["base"] != "MAXL" else doc_in_member_order(term)
-    items = dict(items_for(sub_at(sdoc, case["path"])))
     m = sdoc
     for pos, label in reversed(case["inserts"]):
-        m = insert_at(m, case["path"], pos, items[label])
+        m = insert_at(m, case["path"], pos, item_by_label(sub_at(sdoc, case["path"]), label))
     r = case.get("route", "tree")
     inst, _ = convert_route(r, sdoc)
     print(" document:", ref_sgml.render(m))
